@@ -418,9 +418,9 @@ func c01Model(c C01Case) (model.Res, model.X) {
 	p, m := uint64(c.P), model.Mode(c.M)
 	switch c.Op {
 	case "add":
-		return model.Sum(x, c.Y.Val(), p, m), model.AddX(x, c.Y.Val())
+		return model.Sum(x, c.Y.Val(), p, m), model.AddXP(x, c.Y.Val(), p)
 	case "sub":
-		return model.Diff(x, c.Y.Val(), p, m), model.AddX(x, c.Y.Val().Negate())
+		return model.Diff(x, c.Y.Val(), p, m), model.AddXP(x, c.Y.Val().Negate(), p)
 	case "mul":
 		return model.Prod(x, c.Y.Val(), p, m), model.MulX(x, c.Y.Val())
 	case "quo":
@@ -554,4 +554,60 @@ func mustJSON(v interface{}) []byte {
 		panic(err)
 	}
 	return b
+}
+
+// c01HugeGapCases: sums and differences whose addends lie hundreds of millions (quick) to more than 2^31
+// (thorough) digits apart. The library really aligns the operands (a shift by the gap: 0.1 GB of words for 2^28
+// digits, 1 GB for 2^31), so these are a fixed handful enumerated on every run rather than a generated class; the
+// reference needs no such work (model.AddXP keeps the leading digits and a sticky flag).
+func c01HugeGapCases() []C01Case {
+	type shape struct {
+		xd, yd string
+		xe, ye int64
+		p      uint
+	}
+	shapes := []shape{
+		{"1", "1", 3, 3 - (1<<28 + 7), 34},
+		{"25", "7", 100000000, 100000000 - (1<<28 + 1<<27), 2},
+		{"1", "3", 1 << 27, -(1 << 27) - 40, 1},
+	}
+	if h.Thorough() {
+		shapes = append(shapes,
+			shape{"1", "1", 1073741834, -1073741834, 20},
+			shape{"95", "5", 1 << 30, -(1 << 30) - 1000, 2},
+			shape{"1", "1", 600000000, 600000000 - (1 << 29), 19})
+	}
+	var out []C01Case
+	for i, s := range shapes {
+		for _, op := range []string{"add", "sub"} {
+			for _, m := range []uint8{uint8(model.ToNearestEven), uint8(model.AwayFromZero), uint8(model.ToZero), uint8(model.ToPositiveInf)} {
+				if (int(m)+i)%2 == 1 && !h.Thorough() && i > 0 {
+					continue // quick: every mode on the first shape, half of them on the others
+				}
+				c := C01Case{Op: op, P: s.p, M: m,
+					X: h.Spec{F: "f", D: s.xd, E: s.xe, P: uint(len(s.xd)), M: m},
+					Y: h.Spec{F: "f", D: s.yd, E: s.ye, P: uint(len(s.yd)) + 3, M: 0}}
+				if i%2 == 1 {
+					c.X, c.Y = c.Y, c.X
+				}
+				out = append(out, c)
+			}
+		}
+	}
+	return out
+}
+
+func TestC01Grid(t *testing.T) {
+	defer h.WriteStats("C01")
+	n := 0
+	for _, c := range c01HugeGapCases() {
+		o := &h.Obs{}
+		o.Label("huge-gap")
+		if f := propC01.SafeCheck(c, o); f != nil {
+			h.ReportGridFail(t, "C01", f, mustJSON(c))
+		}
+		h.RecordGrid("C01", o, c)
+		n++
+	}
+	h.AddExtra("C01", "huge_gap_cases_enumerated", n)
 }
